@@ -43,12 +43,11 @@ Definition t_hashfull (t : Table) : option Z :=
 
 Definition num_entries (megabytes : N) : N := (megabytes * 1024 * 1024) / esize.
 
-(* Vec::resize(n, default): keeps the first n entries, pads with default *)
+(* Vec::resize(n, default): keeps the first n entries, pads with default (entries beyond n are reset, so
+   that they do not reappear when the table grows again) *)
 Definition t_resize (t : Table) (megabytes : N) : Table :=
   let n := num_entries megabytes in
-  mkTable n (PositiveMap.fold
-               (fun k v acc => if Pos.pred_N k <? n then PositiveMap.add k v acc else acc)
-               (t_map t) (PositiveMap.empty T)).
+  mkTable n (PositiveMap.mapi (fun k v => if Pos.pred_N k <? n then v else dflt) (t_map t)).
 
 Definition t_clear (t : Table) : Table := mkTable (t_len t) (PositiveMap.empty T).
 
@@ -69,6 +68,6 @@ Definition TTable := Table TTEntry.
 Definition tt_poll (t : TTable) (k : N) := t_poll TTEntry tt_default t k.
 Definition tt_add (t : TTable) (k : N) (e : TTEntry) := t_add TTEntry t k e.
 Definition tt_hashfull (t : TTable) := t_hashfull TTEntry tt_default tt_eqb t.
-Definition tt_resize (t : TTable) (mb : N) := t_resize TTEntry TTENTRY_BYTES_DEFAULT t mb.
+Definition tt_resize (t : TTable) (mb : N) := t_resize TTEntry tt_default TTENTRY_BYTES_DEFAULT t mb.
 Definition tt_clear (t : TTable) := t_clear TTEntry t.
-Definition tt_new (mb : N) : TTable := t_new TTEntry TTENTRY_BYTES_DEFAULT mb.
+Definition tt_new (mb : N) : TTable := t_new TTEntry tt_default TTENTRY_BYTES_DEFAULT mb.
